@@ -65,6 +65,18 @@ def ident(x):
     return x
 def first(xs):
     return xs[0]
+class Rec:
+    """a record that looks unknown attributes up among its cells (KeyError, not AttributeError, for a missing one)"""
+    def __init__(self):
+        self.__dict__['cells'] = {'a': 1}
+    def __getattr__(self, name): return self.__dict__['cells'][name]
+    def __add__(self, o): return 99
+    def __radd__(self, o): return 99
+    def __mul__(self, o): return 98
+    def __rmul__(self, o): return 98
+    def __eq__(self, o): return isinstance(o, Rec)
+    def __hash__(self): return 5
+    def __repr__(self): return 'Rec()'
 class Decline:
     """declines everything"""
     def __add__(self, o): return NotImplemented
@@ -76,7 +88,7 @@ REPR = {"int": "3", "negint": "-2", "zero": "0", "float": "2.5", "bool": "True",
         "tuple": "(1, 2)", "dict": "{'a': 1}", "set": "{1, 2}", "none": "None", "complex": "(1+2j)",
         "sub": "Vec((10, 20))", "fwd": "Fwd()", "refl": "Refl()", "decline": "Decline()", "valobj": "Money(5)", "iterobj": "Bag()", "gen": "Once()", "inf": "float('inf')",
         # classes are values too: what evaluate('Money') hands back is used as the second argument of isinstance
-        "clsint": "int", "clsuser": "Money"}
+        "clsint": "int", "clsuser": "Money", "record": "Rec()"}
 
 BIN = {"add": operator.add, "sub": operator.sub, "mul": operator.mul, "truediv": operator.truediv,
        "floordiv": operator.floordiv, "mod": operator.mod, "divmod": divmod, "pow": operator.pow,
